@@ -237,6 +237,29 @@ def build_machine(mir, sym):
             outs.append((st.fork(z3.Not(o[1])), opt(z3.BoolVal(False), None)))
         return outs
 
+    def s_opt_filter(m, st, args, callee):
+        # Option::filter(pred): Some(x) if pred(&x) else None
+        o, clos = args
+        outs = []
+        if o[2] is not None and m.feasible(st, o[1]):
+            st1 = st.fork(o[1])
+            m.frame_counter += 1
+            key = (m.frame_counter, "filter_arg")
+            st1.mem[key] = o[2]
+            for st2, v in m.call_closure(st1, clos, [("ptr", key, ())]):
+                if not z3.is_bool(v):
+                    raise Unsupported("Option::filter predicate returned %r" % (v,))
+                if m.feasible(st2, v):
+                    outs.append((st2.fork(v), opt(z3.BoolVal(True), o[2])))
+                if m.feasible(st2, z3.Not(v)):
+                    outs.append((st2.fork(z3.Not(v)), opt(z3.BoolVal(False), None)))
+        if m.feasible(st, z3.Not(o[1])):
+            outs.append((st.fork(z3.Not(o[1])), opt(z3.BoolVal(False), None)))
+        return outs
+
+    def s_loc_default(m, st, args, callee):
+        return ret(st, z3.BitVec("default_locale", 8))
+
     def s_opt_flatten(m, st, args, callee):
         o = args[0]
         if o[2] is None:
@@ -294,6 +317,8 @@ def build_machine(mir, sym):
         (r"^std::option::Option::<L>::and_then::<", s_opt_and_then),
         (r"^std::option::Option::<L>::map::<L, ", s_opt_map),
         (r"^std::option::Option::<std::option::Option<L>>::flatten$", s_opt_flatten),
+        (r"^std::option::Option::<L>::filter::<", s_opt_filter),
+        (r"^<L as (std::default::)?Default>::default$", s_loc_default),
         (r"^core::bool::<impl bool>::then::<", s_bool_then),
         (r"^<L as PartialEq>::(eq|ne)$", s_loc_eq),
         (r"^<leptos::prelude::Signal<Vec<String>> as leptos::prelude::WithUntracked>::with_untracked::<", s_signal_with),
@@ -390,6 +415,7 @@ def decide_entry(mir, entry, timeout_ms=30000):
             res["status"] = "sat"
             res["model"] = {k: str(mdl.eval(v, model_completion=True)) for k, v in sym.items() if z3.is_expr(v)}
             res["model"]["code_result"] = str(mdl.eval(got, model_completion=True))
+            res["model"]["default"] = str(mdl.eval(z3.BitVec("default_locale", 8), model_completion=True))
             res["model"]["property_result"] = str(mdl.eval(spec, model_completion=True))
             break
         if r == z3.unknown:
@@ -460,8 +486,8 @@ def run_native(scenarios):
     shutil.copytree(os.path.join(TEMPLATE15, "locales"), os.path.join(CRATE15, "locales"))
     lines = []
     for i, sc in enumerate(scenarios):
-        if sc[0] == "top":
-            lines.append("    scenario_top(%d, %s, %s, %s);" % (i, "true" if sc[1] else "false", rs_opt(sc[2]), rs_opt(sc[3])))
+        if sc[0] in ("top", "resolve"):
+            lines.append("    scenario_%s(%d, %s, %s, %s);" % (sc[0], i, "true" if sc[1] else "false", rs_opt(sc[2]), rs_opt(sc[3])))
         else:
             lines.append("    scenario_sub(%d, %s, %s, %s, %s, %s);" % (i, rs_opt(sc[1]), rs_opt(sc[2]), rs_opt(sc[3]), rs_opt(sc[4]), rs_opt(sc[5])))
     main = open(os.path.join(TEMPLATE15, "src", "main.rs.in")).read().replace("@BODY@", "\n".join(lines))
@@ -487,6 +513,12 @@ def all_scenarios(tier):
         for h in headers:
             for a in accepts:
                 sc.append(("top", enable, h, a))
+    for enable in (True, False):
+        for h in (None, "i18n_pref_locale=fr", "i18n_pref_locale=en", "i18n_pref_locale=xx"):
+            for a in (None, "de", "zz,de", "fr;q=0.9,de"):
+                sc.append(("resolve", enable, h, a))
+                if h == "i18n_pref_locale=en":
+                    sc.append(("top", enable, h, a))     # a cookie that names the default locale is still a preference
     for parent in (None, "de"):
         for initial in (None, "fr"):
             for cname in (None, "sub"):
@@ -501,9 +533,15 @@ def scenario_of_model(entry, model):
     order = ["cookie", "init", "parent", "best"]
     names = {}
     pool = ["fr", "de", "es", "en"]
+    if "default" in model:
+        # the crate's default locale is `en`: the code the solver chose for L::default() gets that name
+        names[model["default"]] = "en"
+        pool = ["en", "fr", "de", "es"]
     for k in order:
         v = model[k]
         if v not in names:
+            if len(names) >= len(pool):
+                raise Unsupported("the model needs more distinct locales than the replay crate has")
             names[v] = pool[len(names)]
     nm = {k: names[model[k]] for k in order}
     nm["code_result"] = names.get(model["code_result"])
@@ -512,7 +550,7 @@ def scenario_of_model(entry, model):
     if entry in ("top", "resolve", "fetch_csr", "fetch_ssr"):
         enable = t("enable_cookie") if entry in ("top", "resolve") else True
         header = ("i18n_pref_locale=" + nm["cookie"]) if t("has_cookie") else None
-        return ("top", enable, header, nm["best"]), nm
+        return ("resolve" if entry == "resolve" else "top", enable, header, nm["best"]), nm
     header = ("sub=" + nm["cookie"]) if t("has_cookie") else None
     return ("sub", nm["parent"] if t("has_parent") else None, nm["init"] if t("has_init") else None, "sub" if t("has_name") else None, header, nm["best"]), nm
 
@@ -554,7 +592,7 @@ def run(tier, seed):
         except Exception as e:
             inconclusive.append("%s: model found but native replay failed: %s" % (r["entry"], str(e)[-300:]))
             continue
-        expected = expected_top(*sc[1:]) if sc[0] == "top" else expected_sub(*sc[1:])
+        expected = expected_top(*sc[1:]) if sc[0] in ("top", "resolve") else expected_sub(*sc[1:])
         path = report.write_replay(prop, "initial_locale_%s" % r["entry"], dict(r, signature=sig, scenario=list(sc), real_result=real, expected_by_property=expected,
                                    how_to_replay="crate %s (cargo run): %s" % (CRATE15, list(sc))))
         if real != expected:
@@ -572,7 +610,7 @@ def run(tier, seed):
             reals = run_native(scs)
             native["scenarios"] = len(scs)
             for sc, real in zip(scs, reals):
-                expected = expected_top(*sc[1:]) if sc[0] == "top" else expected_sub(*sc[1:])
+                expected = expected_top(*sc[1:]) if sc[0] in ("top", "resolve") else expected_sub(*sc[1:])
                 if real != expected:
                     native["mismatches"] += 1
                     if native["mismatches"] <= 3:
